@@ -321,6 +321,9 @@ fn checksum_stage(ck: &mut Check) {
     let mut a = Acc::new();
     let rep = crate::m_checksum::long_histories(&mut a);
     ck.add_stage(a, rep);
+    let mut a = Acc::new();
+    let rep = crate::m_checksum::raw_value_sweep(&mut a);
+    ck.add_stage(a, rep);
 }
 
 fn c11(ck: &mut Check) {
@@ -488,6 +491,12 @@ pub fn replay_case(prop: &'static str, case: &Value) -> Option<Vec<Violation>> {
             return Some(a.violations);
         },
         "shape-parse" | "shape-build" => return crate::m_shapes::replay(case),
+        "checksum-raw" => {
+            // (the sweep is cheap: re-run it and keep the recorded case)
+            let mut a = Acc::new();
+            crate::m_checksum::raw_value_sweep(&mut a);
+            acc.violations = a.violations.into_iter().filter(|v| v.case == *case).collect();
+        },
         "checksum-bfs" => return crate::xstate::replay(&crate::m_checksum::CModel::new(prop, Tier::Thorough), case),
         "builder-bfs" => return crate::xstate::replay(&crate::m_builder::BModel::<String>::new(prop, monitors_for(prop), 2), case),
         #[cfg(feature = "typed")]
@@ -502,6 +511,12 @@ pub fn replay_case(prop: &'static str, case: &Value) -> Option<Vec<Violation>> {
         "c08-name" => sweeps::c08_name_case(case["ty"].as_str()?, case["name"].as_str()?, &mut acc),
         #[cfg(feature = "typed")]
         "c08-maven-ns" => sweeps::c08_maven_case(case["ns"].as_str()?, &mut acc),
+        #[cfg(feature = "typed")]
+        "c08-other-fields" => {
+            let mut a = Acc::new();
+            sweeps::c08_other_fields(&mut a);
+            acc.violations = a.violations.into_iter().filter(|v| v.case == *case).collect();
+        },
         #[cfg(feature = "typed")]
         "c08-maven-no-ns" => sweeps::c08_maven_no_namespace(case["name"].as_str()?, &mut acc),
         #[cfg(feature = "typed")]
@@ -666,7 +681,10 @@ impl Check {
             let upper: String = bytes.iter().map(|b| format!("%{:02X}", b)).collect();
             let lower: String = bytes.iter().map(|b| format!("%{:02x}", b)).collect();
             let raw = c.to_string();
-            for (p, s) in frames.iter() {
+            // leading position of each component (quick: below U+3000 only)
+            let lead: [(&str, &str); 7] = [("pkg:t/", "x"), ("pkg:t/n@", "1"), ("pkg:t/n?k=", "v"), ("pkg:t/n#", "s"), ("pkg:t/", "g/n"), ("pkg:t/n#s/t", ""), ("pkg:t/g", "/n")];
+            let lead_on = self.tier == Tier::Thorough || (c as u32) < 0x3000;
+            for (p, s) in frames.iter().chain(lead.iter().filter(|_| lead_on)) {
                 for (i, spelled) in [&raw, &upper, &lower].iter().enumerate() {
                     if i == 2 && lower == upper {
                         continue;
